@@ -19,24 +19,37 @@
 (* end also for a group none of whose tests ran (EmptyGroupEnded): nothing *)
 (* is asked for such a group, but what is written for it must not replace  *)
 (* the report of a group that ran (NoOverwrite, LastContentFaithful).      *)
+(*                                                                         *)
+(* The reporter is an object with a life of its own: its package name is   *)
+(* state that setPackageName may change whenever no group is open          *)
+(* (SetPackage: between two groups, before the first, after the last,      *)
+(* between two runs), createFileName is a public query (AskFileName), and  *)
+(* one reporter may serve several runs, each with its own registry and     *)
+(* result (NextRun).  The file of a group is named after the package in    *)
+(* force when the group ends.  The run options that reach a reporter       *)
+(* (colour, verbosity: `opt') are part of every run; nothing in a report   *)
+(* depends on them.                                                        *)
 (***************************************************************************)
 EXTENDS Naturals, Integers, Sequences, FiniteSets, TLC, ReportStr
 
 CONSTANTS Names, Files, Msgs, Texts, LineNos, Pkgs,
-          MaxGroups, MaxTests, MaxFails, MaxPrints       \* bounds (model checking / generation only)
+          Opts,                                          \* run options [color : BOOLEAN, verb : 0..2] (quiet, verbose, very verbose)
+          MaxGroups, MaxTests, MaxFails, MaxPrints,      \* bounds (model checking / generation only): per run / group / test
+          MaxRuns, MaxSets                               \* runs served by one reporter; setPackageName + createFileName calls
 
 VARIABLES phase,    \* "idle" | "run" | "group" | "test" | "done"
           runIgn,   \* run-ignored mode
-          pkg,      \* package name given to the reporter before the run
+          pkg,      \* the reporter's package name (setPackageName: before the run, and whenever no group is open)
+          opt,      \* run options given to the reporter [color, verb]; no observable depends on them
           grp,      \* name of the open (or last) group
           rep,      \* reporter bookkeeping: [group, tests, failures, nodes, stdout]
           cur,      \* ghost: tests of the open group [name, file, line, ign, fails]
-          printed,  \* ghost: [group |-> text printed during the open group, all |-> text printed since the run began]
+          printed,  \* ghost: [group |-> text printed during the open group, all |-> text printed since the reporter was created]
           files,    \* documents written so far, in the order of writing; `of' = index in `done' of the group it was written for
           done,     \* ghost: for each closed group [grp, tests, printedGroup, printedAll]; tests = <<>>: none of its tests ran
           cnt
 
-vars == <<phase, runIgn, pkg, grp, rep, cur, printed, files, done, cnt>>
+vars == <<phase, runIgn, pkg, opt, grp, rep, cur, printed, files, done, cnt>>
 
 -----------------------------------------------------------------------------
 \* XML 1.0 escaping as the writer applies it (one encoder for attribute values and character data)
@@ -84,11 +97,13 @@ DecStep(ctx, st, c) ==
     ELSE IF ctx = "attr" /\ c \in {CR, LF, 9} THEN [st EXCEPT !.o = Append(@, 32)]
     ELSE IF ctx = "text" /\ c = CR THEN [st EXCEPT !.o = Append(@, LF)]
     ELSE [st EXCEPT !.o = Append(@, c)]
-XmlDec(ctx, w) == LET r == Fold(LAMBDA st, c : DecStep(ctx, st, c), [o |-> <<>>, ref |-> <<>>], w) IN
+XmlDec(ctx, w) == LET r == ReadFold(LAMBDA st, c : DecStep(ctx, st, c), [o |-> <<>>, ref |-> <<>>], w) IN
                   IF r.ref # <<>> THEN Append(r.o, Bad) ELSE r.o
 \* "]]>" must not appear literally in character data
 NoCdataEnd(w) == ~HasSub(w, <<93, 93, 62>>)
 XmlSafe(ctx, w) == Bad \notin BytesOf(XmlDec(ctx, w)) /\ (ctx = "text" => NoCdataEnd(w))
+\* the written value w is safe and a parser reads it as the text s (one decoding pass: values may be very long)
+ReadsAs(ctx, w, s) == LET d == XmlDec(ctx, w) IN Bad \notin BytesOf(d) /\ (ctx = "text" => NoCdataEnd(w)) /\ d = s
 
 \* the encoding theorem the writer relies on (checked by TLC over all strings up to a length)
 EncodeCorrect(A, n) == \A s \in StrUpTo(A, n) : \A ctx \in {"attr", "text"} : XmlSafe(ctx, XmlEnc(s)) /\ XmlDec(ctx, XmlEnc(s)) = s
@@ -112,22 +127,45 @@ FileNameOK(d, p, g) ==
 -----------------------------------------------------------------------------
 NoRep == [group |-> <<>>, tests |-> 0, failures |-> 0, nodes |-> <<>>]
 
-Init == /\ phase = "idle" /\ runIgn = FALSE /\ pkg = <<>> /\ grp = <<>>
+NoOpt == [color |-> FALSE, verb |-> 0]
+NoCnt == [g |-> 0, t |-> 0, f |-> 0, p |-> 0, r |-> 0, s |-> 0]
+Init == /\ phase = "idle" /\ runIgn = FALSE /\ pkg = <<>> /\ opt = NoOpt /\ grp = <<>>
         /\ rep = NoRep @@ [stdout |-> <<>>]
         /\ cur = <<>> /\ printed = [group |-> <<>>, all |-> <<>>] /\ files = <<>> /\ done = <<>>
-        /\ cnt = [g |-> 0, t |-> 0, f |-> 0, p |-> 0]
+        /\ cnt = NoCnt
 
-\* setPackageName + TestResult::testsStarted
-TestsStarted(ri, p) ==
-    /\ phase = "idle" /\ phase' = "run" /\ runIgn' = ri /\ pkg' = p
-    /\ UNCHANGED <<grp, rep, cur, printed, files, done, cnt>>
+\* a new reporter: setPackageName(p), colour / verbosity o; then TestResult::testsStarted of its first run
+TestsStarted(ri, p, o) ==
+    /\ phase = "idle" /\ phase' = "run" /\ runIgn' = ri /\ pkg' = p /\ opt' = o
+    /\ cnt' = [cnt EXCEPT !.r = 1]
+    /\ UNCHANGED <<grp, rep, cur, printed, files, done>>
+
+\* the same reporter serves another run (a new registry and result): TestResult::testsStarted again.  No group is open
+\* and none has been seen in this run, so its first group may carry any name.
+NextRun(ri) ==
+    /\ phase = "done" /\ phase' = "run" /\ runIgn' = ri /\ grp' = <<>>
+    /\ cnt' = [cnt EXCEPT !.r = @ + 1, !.g = 0, !.t = 0]
+    /\ UNCHANGED <<pkg, opt, rep, cur, printed, files, done>>
+
+\* setPackageName while no group is open: the files written from now on are named after p
+SetPackage(p) ==
+    /\ phase \in {"run", "done"} /\ pkg' = p
+    /\ cnt' = [cnt EXCEPT !.s = @ + 1]
+    /\ UNCHANGED <<phase, runIgn, opt, grp, rep, cur, printed, files, done>>
+
+\* createFileName(g), a public query: answers with the name a report of group g would get now, FileName(pkg, g)
+\* (what the property asks of the answer: FileNameOK(answer, pkg, g)); it changes nothing
+AskFileName(g) ==
+    /\ phase \in {"run", "done"}
+    /\ cnt' = [cnt EXCEPT !.s = @ + 1]
+    /\ UNCHANGED <<phase, runIgn, pkg, opt, grp, rep, cur, printed, files, done>>
 
 \* printCurrentGroupStarted does nothing in this reporter
 GroupStarted(g) ==
     /\ phase = "run" /\ phase' = "group" /\ g # grp /\ grp' = g
     /\ cur' = <<>> /\ printed' = [printed EXCEPT !.group = <<>>]
     /\ cnt' = [cnt EXCEPT !.g = @ + 1, !.t = 0]
-    /\ UNCHANGED <<runIgn, pkg, rep, files, done>>
+    /\ UNCHANGED <<runIgn, pkg, opt, rep, files, done>>
 
 \* printCurrentTestStarted: a new result node at the tail
 TestStarted(n, file, line, kind) ==
@@ -137,7 +175,7 @@ TestStarted(n, file, line, kind) ==
                                !.nodes = Append(@, [name |-> n, file |-> file, line |-> line, ignored |-> ign, failure |-> <<>>])]
          /\ cur' = Append(cur, [name |-> n, file |-> file, line |-> line, ign |-> ign, fails |-> <<>>])
     /\ cnt' = [cnt EXCEPT !.t = @ + 1, !.f = 0, !.p = 0]
-    /\ UNCHANGED <<runIgn, pkg, grp, printed, files, done>>
+    /\ UNCHANGED <<runIgn, pkg, opt, grp, printed, files, done>>
 
 \* TestResult::print -> JUnitTestOutput::print appends to the captured output
 PrintText(txt) ==
@@ -145,7 +183,7 @@ PrintText(txt) ==
     /\ rep' = [rep EXCEPT !.stdout = @ \o txt]
     /\ printed' = [group |-> printed.group \o txt, all |-> printed.all \o txt]
     /\ cnt' = [cnt EXCEPT !.p = @ + 1]
-    /\ UNCHANGED <<phase, runIgn, pkg, grp, cur, files, done>>
+    /\ UNCHANGED <<phase, runIgn, pkg, opt, grp, cur, files, done>>
 
 \* printFailure: only the first failure of a test is kept, and counted
 Failure(file, line, msg) ==
@@ -156,14 +194,14 @@ Failure(file, line, msg) ==
                    ELSE rep
          /\ cur' = [cur EXCEPT ![Len(cur)].fails = Append(@, f)]
     /\ cnt' = [cnt EXCEPT !.f = @ + 1]
-    /\ UNCHANGED <<phase, runIgn, pkg, grp, printed, files, done>>
+    /\ UNCHANGED <<phase, runIgn, pkg, opt, grp, printed, files, done>>
 
 \* a test that the registry counts but a group / name filter keeps from running: no call reaches the reporter
 Skip == /\ phase = "group" /\ cnt' = [cnt EXCEPT !.t = @ + 1]
-        /\ UNCHANGED <<phase, runIgn, pkg, grp, rep, cur, printed, files, done>>
+        /\ UNCHANGED <<phase, runIgn, pkg, opt, grp, rep, cur, printed, files, done>>
 
 TestEnded == /\ phase = "test" /\ phase' = "group"
-             /\ UNCHANGED <<runIgn, pkg, grp, rep, cur, printed, files, done, cnt>>
+             /\ UNCHANGED <<runIgn, pkg, opt, grp, rep, cur, printed, files, done, cnt>>
 
 \* the document the reporter writes for its bookkeeping
 FailText(f) == f.file \o <<58>> \o Dec(f.line) \o <<58, 32>> \o f.msg          \* "<file>:<line>: <message>"
@@ -188,7 +226,7 @@ GroupEnded(keep) ==
     /\ files' = Append(files, DocOf(rep, pkg) @@ [of |-> Len(done) + 1])
     /\ done' = Append(done, [grp |-> grp, tests |-> cur, printedGroup |-> printed.group, printedAll |-> printed.all, pkg |-> pkg])
     /\ rep' = NoRep @@ [stdout |-> IF keep THEN rep.stdout ELSE <<>>]
-    /\ UNCHANGED <<runIgn, pkg, grp, cur, printed, cnt>>
+    /\ UNCHANGED <<runIgn, pkg, opt, grp, cur, printed, cnt>>
 
 \* The registry reports start and end also for a group all of whose tests are filtered out.  The property says nothing
 \* about a report for such a group: the reporter may write none (wrote = FALSE) or flush its (empty) bookkeeping - a
@@ -199,12 +237,15 @@ EmptyGroupEnded(wrote, keep) ==
     /\ files' = IF wrote THEN Append(files, DocOf(rep, pkg) @@ [of |-> Len(done) + 1]) ELSE files
     /\ done' = Append(done, [grp |-> grp, tests |-> <<>>, printedGroup |-> printed.group, printedAll |-> printed.all, pkg |-> pkg])
     /\ rep' = IF wrote THEN NoRep @@ [stdout |-> IF keep THEN rep.stdout ELSE <<>>] ELSE rep
-    /\ UNCHANGED <<runIgn, pkg, grp, cur, printed, cnt>>
+    /\ UNCHANGED <<runIgn, pkg, opt, grp, cur, printed, cnt>>
 
 TestsEnded == /\ phase = "run" /\ phase' = "done"
-              /\ UNCHANGED <<runIgn, pkg, grp, rep, cur, printed, files, done, cnt>>
+              /\ UNCHANGED <<runIgn, pkg, opt, grp, rep, cur, printed, files, done, cnt>>
 
-Next == \/ \E ri \in BOOLEAN, p \in Pkgs : TestsStarted(ri, p)
+Next == \/ \E ri \in BOOLEAN, p \in Pkgs, o \in Opts : TestsStarted(ri, p, o)
+        \/ \E ri \in BOOLEAN : cnt.r < MaxRuns /\ NextRun(ri)
+        \/ \E p \in Pkgs : cnt.s < MaxSets /\ SetPackage(p)
+        \/ \E g \in Names : cnt.s < MaxSets /\ AskFileName(g)
         \/ \E g \in Names : cnt.g < MaxGroups /\ GroupStarted(g)
         \/ \E n \in Names, f \in Files, l \in LineNos, k \in {"n", "i"} : cnt.t < MaxTests /\ TestStarted(n, f, l, k)
         \/ \E x \in Texts : cnt.p < MaxPrints /\ PrintText(x)
@@ -259,22 +300,23 @@ OutputFaithful == OutputFaithfulFrom(1)
 \* every string is written so that a conforming parser accepts it and reads back the original (every file, also one
 \* written for a group that did not run, must stay well-formed)
 WellFormedRoundTripFrom(k) == \A i \in Lo(k)..Len(files) : \A n \in 1..Len(files[i].wire) :
-    LET e == files[i].wire[n] IN XmlSafe(e.ctx, e.w) /\ XmlDec(e.ctx, e.w) = e.orig
+    LET e == files[i].wire[n] IN ReadsAs(e.ctx, e.w, e.orig)
 WellFormedRoundTrip == WellFormedRoundTripFrom(1)
 
 FileNamesOKFrom(k) == \A i \in Lo(k)..Len(files) : RanDoc(i) => FileNameOK(files[i].fname, For(i).pkg, For(i).grp)
 FileNamesOK == FileNamesOKFrom(1)
 
 \* whatever is written for a group that did not run must not go to (a name of) the file of a group that ran before it:
-\* it would replace that group's report
+\* it would replace that group's report.  (Asked among the groups reported under one package name: under different
+\* package names two file names may coincide, as they may for two group names that differ in illegal characters only.)
 NoOverwriteFrom(k) == \A j \in Lo(k)..Len(files) : ~RanDoc(j) =>
-    \A g \in 1..(files[j].of - 1) : Ran(g) => ~FileNameOK(files[j].fname, done[g].pkg, done[g].grp)
+    \A g \in 1..(files[j].of - 1) : Ran(g) /\ done[g].pkg = For(j).pkg => ~FileNameOK(files[j].fname, done[g].pkg, done[g].grp)
 NoOverwrite == NoOverwriteFrom(1)
 
 \* the property in terms of the file system after the run: for every group that ran, the LAST content written under
 \* the name of its file is the report of a group that ran (faithful by the clauses above), not a left-over
 LastContentFaithful == \A i \in 1..Len(files) : RanDoc(i) =>
-    LET same == { j \in i..Len(files) : files[j].fname = files[i].fname }
+    LET same == { j \in i..Len(files) : files[j].fname = files[i].fname /\ For(j).pkg = For(i).pkg }
         last == CHOOSE j \in same : \A m \in same : m <= j IN RanDoc(last)
 
 \* the reporter's bookkeeping for the open group agrees with what happened
